@@ -101,14 +101,16 @@ namespace wit {
         if ok:
             ats = guard_atoms(fn, outs[0])
             flag = None
+            rf_node = None
             for l, op, r in ats:
                 if op == '!=' and cval(r) == 0 and not isinstance(l, int):
                     b = as_binop(l)
-                    if b and b[0] == '&' and b[1].is_call('flags') and is_name(b[2], 'required_flag'):
+                    if b and b[0] == '&' and b[1].is_call('flags'):
                         flag = b[1]
-            ok = flag is not None and strip_casts(flag.args()[0]).is_call('client_characteristic_configuration_index') and is_name(base_object(strip_casts(flag.args()[0])), 'data')
+                        rf_node = b[2]
+            ok = flag is not None and strip_casts(flag.args()[0]).is_call('client_characteristic_configuration_index')
             why = 'the PDU is built without testing the subscription bit of that characteristic'
-            rf = local_init(fn, 'required_flag')
+            rf = deep(rf_node) if rf_node is not None else None
             if ok:
                 ok = rf is not None and rf.k == 'ConditionalOperator' and mentions(rf.c[0], 'notification') and 'notification_enabled' in rf.c[1].text() and 'indication_enabled' in rf.c[2].text()
                 why = 'required flag does not follow the dequeued kind'
@@ -116,9 +118,10 @@ namespace wit {
                 v = strip_casts([val for tgt, op, val, st in stores(fn.body) if st is outs[0]][0])
                 ok = v.k == 'ConditionalOperator' and mentions(v.c[0], 'notification') and mentions(v.c[1], 'notification') and mentions(v.c[2], 'indication')
                 why = 'opcode does not follow the dequeued kind'
-            data = local_init(fn, 'data')
+            dcl = [d for d in fn.body.find(lambda n: n.k == 'VarDecl' and n.c) if strip_casts(d.c[0]).is_call('find_notification_data_by_index')]
+            data = strip_casts(dcl[0].c[0]) if len(dcl) == 1 else None
             if ok:
-                ok = data is not None and data.is_call('find_notification_data_by_index') and mentions(data, 'pending')
+                ok = data is not None and data.is_call('find_notification_data_by_index') and mentions(data, 'pending') and is_name(base_object(strip_casts(flag.args()[0])), dcl[0].n)
                 why = 'notification data is not looked up by the dequeued CCCD index'
         chk.instance('send-only-if-subscribed', fn, 'flags(data.client_characteristic_configuration_index()) & required_flag', ok, '' if ok else why, key='subscribed')
         wh = fn.body.calls('write_handle')
